@@ -83,6 +83,14 @@ func H_C15(n, alpha int) {
 
 	// Parse reports statements in the same order and number as the non-empty pieces
 	stmts, err := parser.Parse(src)
+	// (also when some statement is malformed: what Parse returns for the whole source is
+	// what it returns for the pieces one by one)
+	fromPieces := 0
+	for _, p := range parts {
+		ps, _ := parser.Parse(p)
+		fromPieces += len(ps)
+	}
+	verif.Assert(len(stmts) == fromPieces, "Parse of the whole source reports a different number of statements than parsing its pieces one by one")
 	if err == nil {
 		verif.Cover("parsed")
 		verif.Assert(len(stmts) == nonEmpty, "Parse statement count differs from the number of non-empty pieces")
